@@ -15,7 +15,7 @@ def register(reg: Registry) -> None:
     reg.load_module("explorerscript.ssb_converting.ssb_data_types")
     for cls in ("ExplorerScriptSsbDecompiler", "SsbScriptSsbDecompiler"):
         reg.fields({f"{cls}._line_number": "int", f"{cls}._output": "str", f"{cls}.indent": "int"})
-    reg.fields({"ExplorerScriptSsbDecompiler.smb": "SourceMapBuilder | None", "SsbScriptSsbDecompiler._source_map_builder": "SourceMapBuilder | None"})
+    reg.fields({"ExplorerScriptSsbDecompiler._jump_waiting_for_source_map": "int | None", "ExplorerScriptSsbDecompiler.smb": "SourceMapBuilder | None", "SsbScriptSsbDecompiler._source_map_builder": "SourceMapBuilder | None"})
     for mod, cls, wl in ((D, "ExplorerScriptSsbDecompiler", "write_line"), (S, "SsbScriptSsbDecompiler", "_write_line")):
         reg.contract(
             f"{mod}:{cls}.{wl}", types={"self": cls},
@@ -27,7 +27,10 @@ def register(reg: Registry) -> None:
             ensures=[INV,
                      "self._line_number == old(self._line_number) + ite(line, 1, 0) + count_nl(stmnt)",
                      # the statement text is appended verbatim at the end of the output
-                     "any_val(lambda pre: is_str(pre) and self._output == typed(pre, 'str') + stmnt and count_nl(typed(pre, 'str')) == old(count_nl(self._output)) + ite(line, 1, 0))"],
+                     "any_val(lambda pre: is_str(pre) and self._output == typed(pre, 'str') + stmnt and count_nl(typed(pre, 'str')) == old(count_nl(self._output)) + ite(line, 1, 0))"]
+            # a Jump op that was passed without a statement of its own can only be mapped to the statement written NEXT: once any
+            # statement has been written it is forgotten (otherwise a later, unrelated `jump @label;` would get its entry)
+            + (["is_none(self._jump_waiting_for_source_map)"] if cls == "ExplorerScriptSsbDecompiler" else []),
             modifies=["self._line_number", "self._output"] + (["self._jump_waiting_for_source_map"] if cls == "ExplorerScriptSsbDecompiler" else []),
             canaries=["self._line_number == old(self._line_number) + 1"], properties=["C09"])
     reg.contract(
